@@ -20,6 +20,9 @@ import re
 
 from .. import common, project, tlc
 
+# switch constants of DosSeq describing the code as it currently is (see DESIGN.md section 3.2)
+LIST_PINNED = True
+
 UNIVERSE = ['k1', 'k2', 'k3', 'k4', 'k5', 'k6', 'k7', 'k8', 'k9']  # k9 is never stored
 MODES = ['NO', 'YES', 'KEEP', 'AUTO']
 
@@ -154,12 +157,18 @@ class Runner:
         self.name_of = {v: k for k, v in self.key_of.items()}
 
     # -- helpers ---------------------------------------------------------------------------------
-    def source(self, index):
+    def source(self, index, step=None):
+        if step is not None and 'srckeys' in step:
+            index = ('custom', tuple(step['srckeys']), step['samehash'])
         if index not in self.sources:
-            kind, forms = SOURCES[index]
+            if isinstance(index, tuple):
+                kind = 'same' if index[2] else 'other'
+                forms = {k: ['loose', 'packed', 'packedz'][i % 3] for i, k in enumerate(index[1]) if k in self.full.table}
+            else:
+                kind, forms = SOURCES[index]
             other = {'sha256': 'sha1', 'sha1': 'sha256'}[self.hash]
             hash_type = self.hash if kind == 'same' else other
-            cont = self.Container(os.path.join(self.base, f'src{index}'))
+            cont = self.Container(os.path.join(self.base, f'src{len(self.sources)}'))
             cont.init_container(hash_type=hash_type, pack_size_target=10 ** 9, loose_prefix_len=2)
             for name, form in forms.items():
                 data = self.full[name]
@@ -241,7 +250,7 @@ class Runner:
                 cont.loosen_object(self.key_of[step['keys'][0]])
                 return [], ''
             if name == 'import':
-                src, src_hash, forms = self.source(step['src'])
+                src, src_hash, forms = self.source(step.get('src'), step)
                 src_key = {k: hashlib.new(src_hash, self.full[k]).hexdigest() for k in UNIVERSE}
                 wanted = [src_key[k] for k in step['keys']]
                 iterable = {'list': list, 'tuple': tuple, 'set': set, 'generator': lambda x: (i for i in x)}[
@@ -371,11 +380,15 @@ class Runner:
         src_keys = []
         samehash = False
         if step['name'] == 'import':
-            kind, forms = SOURCES[step['src']]
-            src_keys = sorted(forms)
-            samehash = kind == 'same'
+            if 'srckeys' in step:
+                src_keys = sorted(k for k in step['srckeys'] if k in self.full.table)
+                samehash = step['samehash']
+            else:
+                kind, forms = SOURCES[step['src']]
+                src_keys = sorted(forms)
+                samehash = kind == 'same'
         return {
-            'name': step['name'], 'keys': list(step.get('keys', [])), 'z': bool(step.get('z', False)),
+            'name': step['name'], 'h': step.get('h', 'h1'), 'keys': list(step.get('keys', [])), 'z': bool(step.get('z', False)),
             'mode': {'True': 'YES', 'False': 'NO'}.get(step.get('mode', ''), step.get('mode', '')),
             'noholes': bool(step.get('noholes', False)), 'twice': bool(step.get('twice', False)),
             'perpack': bool(step.get('perpack', False)), 'vacuum': bool(step.get('vacuum', False)),
@@ -468,7 +481,8 @@ def parse_violations(output):
     return hits
 
 
-def run_histories(report: common.Report, profile: str, count: int, length: int, props, extra_histories=()):
+def run_histories(report: common.Report, profile: str, count: int, length: int, props, extra_histories=(),
+                  sim=None, conform=True):
     """Generate + execute + monitor.  ``props`` are the property ids whose invariants decide the verdict."""
     common.import_lib()
     rng = common.rng('seq', profile)
@@ -477,6 +491,17 @@ def run_histories(report: common.Report, profile: str, count: int, length: int, 
         jobs.append((tid, random_config(rng, profile), random_history(rng, profile, length)))
     for extra in extra_histories:
         jobs.append((len(jobs) + 1, extra[0], extra[1]))
+    # spec -> code: behaviours of the design model generated by TLC, replayed on the real library
+    n_sim = 0
+    if sim:
+        per_group = max(1, sim[0] // 4)
+        for zlevel, target in ((1, 50), (1, 120), (9, 400), (6, 10 ** 9)):
+            histories, _res = simulate_histories(per_group, sim[1], zlevel, target, common.seed() * 1000 + target % 997)
+            for steps in histories:
+                cfg = {'hash': rng.choice(['sha256', 'sha1']), 'prefix': rng.choice([0, 2, 3]), 'zlevel': zlevel,
+                       'target': target}
+                jobs.append((len(jobs) + 1, cfg, steps))
+                n_sim += 1
     traces = common.pmap(execute_history, jobs)
     invariants = [inv for prop in props for inv in INVARIANTS[prop]]
     other = [inv for prop, invs in INVARIANTS.items() if prop not in props for inv in invs]
@@ -522,6 +547,9 @@ def run_histories(report: common.Report, profile: str, count: int, length: int, 
     report.set('ops_executed', ops)
     report.set('monitor', res.summary())
     report.set('invariants_checked', invariants)
+    report.set('histories_from_tlc_simulation', n_sim)
+    if conform:
+        conformance(report, traces, list_pinned=LIST_PINNED)
     report.sample({'cfg': traces[0]['cfg'], 'steps': traces[0]['steps']})
     report.sample({'line': {k: v for k, v in traces[0]['lines'][min(3, len(traces[0]['lines']) - 1)].items()}})
     return traces
@@ -535,3 +563,222 @@ def replay(data) -> int:
         res, hits = monitor([trace], [inv for invs in INVARIANTS.values() for inv in invs], workdir)
     print('replay: violated invariants:', sorted({h[0] for h in hits}) or 'none')
     return 1 if any(h[0] == rep.get('invariant') for h in hits) else 0
+
+
+# ------------------------------------------------------------------------------------------------
+# Conformance to the design model DosSeq (SeqConf.tla): MODEL-DRIFT reporting, never a verdict
+# ------------------------------------------------------------------------------------------------
+
+
+def _tla_fun(name, mapping, fmt):
+    cases = ' [] '.join(f'k = "{k}" -> {fmt(v)}' for k, v in mapping.items())
+    return f'{name} == [k \\in MCKeys |-> CASE {cases}]\n'
+
+
+def write_conf_model(workdir, zlevel, target, handles=('h1',), list_pinned=True):
+    import zlib  # pylint: disable=import-outside-toplevel
+
+    _table, full = contents()
+    sizes = {k: len(v) for k, v in full.table.items()}
+    zlens = {k: common.zlen(v, zlevel) for k, v in full.table.items()}
+    autoz = {}
+    for k, v in full.table.items():
+        comp = zlib.compressobj(level=1)
+        autoz[k] = bool(v) and (len(comp.compress(v) + comp.flush()) / len(v) < 0.9)
+    keys = ', '.join(f'"{k}"' for k in full.table)
+    with open(os.path.join(workdir, 'MCConf.tla'), 'w', encoding='utf8') as handle:
+        handle.write('---- MODULE MCConf ----\nEXTENDS SeqConf\n')
+        handle.write(f'MCKeys == {{{keys}}}\n')
+        handle.write(_tla_fun('MCSize', sizes, str))
+        handle.write(_tla_fun('MCZLen', zlens, str))
+        handle.write(_tla_fun('MCAutoZ', autoz, lambda b: 'TRUE' if b else 'FALSE'))
+        handle.write('====\n')
+    hs = ', '.join(f'"{h}"' for h in handles)
+    with open(os.path.join(workdir, 'MCConf.cfg'), 'w', encoding='utf8') as handle:
+        handle.write('SPECIFICATION CSpec\nCONSTANTS\n  Keys <- MCKeys\n  Size <- MCSize\n  ZLen <- MCZLen\n  AutoZ <- MCAutoZ\n')
+        handle.write(f'  PackTarget = {target}\n  MaxPack = 40\n  Handles = {{{hs}}}\n  AppendIgnoresSeek = FALSE\n')
+        handle.write(f'  ListUsesPinnedSnapshot = {"TRUE" if list_pinned else "FALSE"}\n')
+        handle.write('INVARIANT NotStuck\nCHECK_DEADLOCK FALSE\n')
+
+
+def _conf_group(job):
+    (zlevel, target), traces, handles, list_pinned = job
+    with common.scratch('conf') as workdir:
+        write_conf_model(workdir, zlevel, target, handles, list_pinned)
+        trace_file = os.path.join(workdir, 'traces.ndjson')
+        with open(trace_file, 'w', encoding='utf8') as handle:
+            handle.write(json.dumps({'kind': 'header'}) + '\n')
+            for trace in traces:
+                handle.write(json.dumps({'tid': trace['tid'], 'lines': [
+                    {'op': line['op'], 'obs': line['obs']} for line in trace['lines']]}) + '\n')
+        res = tlc.run('MCConf', 'MCConf.cfg', workers=2, timeout=900, args=['-continue'], cwd=workdir,
+                      env={'TRACE_FILE': trace_file}, java_opts=[f'-DTLA-Library={common.SPEC}'])
+        stuck = []
+        for chunk in re.split(r'(?=Error: Invariant \w+ is violated)', res.output):
+            if chunk.startswith('Error: Invariant NotStuck'):
+                tids = re.findall(r'/\\ tid = (\d+)', chunk)
+                ls = re.findall(r'/\\ l = (\d+)', chunk)
+                if tids and ls:
+                    stuck.append((int(tids[-1]), int(ls[-1])))
+        bad = res.timeout or (res.error_lines and not stuck) or res.distinct == 0
+        return {'group': [zlevel, target], 'stuck': [(traces[t - 1]['tid'], l) for t, l in stuck], 'states': res.distinct,
+                'generated': res.generated, 'wall': res.wall, 'bad': bool(bad), 'tail': res.output[-1500:] if bad else ''}
+
+
+def conformance(report: common.Report, traces, handles=('h1',), list_pinned=True):
+    """Check every trace against DosSeq; report drift (never a violation).  Returns the set of drifting tids."""
+    groups = {}
+    for trace in traces:
+        groups.setdefault((trace['cfg']['zlevel'], trace['cfg']['target']), []).append(trace)
+    results = common.pmap(_conf_group, [(key, group, handles, list_pinned) for key, group in groups.items()], procs=8)
+    drift = {}
+    states = generated = 0
+    for result in results:
+        if result['bad']:
+            print('MACHINERY-FAILURE: conformance run failed for group', result['group'])
+            print(result['tail'])
+            raise SystemExit(2)
+        states += result['states']
+        generated += result['generated']
+        for tid, line_no in result['stuck']:
+            drift[tid] = line_no
+    by_tid = {t['tid']: t for t in traces}
+    for tid, line_no in sorted(drift.items())[:10]:
+        line = by_tid[tid]['lines'][line_no]
+        print(f"MODEL-DRIFT property={report.prop} at=trace {tid} line {line_no + 1} op={json.dumps(line['op'])[:300]}")
+        report.note(f"model drift: DosSeq cannot follow op {line['op']['name']} (trace {tid}, step {line_no}); "
+                    f"steps={json.dumps(by_tid[tid]['steps'][:line_no])[:400]}")
+    report.set('conformance', {'traces': len(traces), 'conforming': len(traces) - len(drift), 'drifting': len(drift),
+                               'groups': len(groups), 'states': states})
+    report.add('states', states)
+    report.add('transitions', generated)
+    return drift
+
+
+# ------------------------------------------------------------------------------------------------
+# spec -> code: histories generated by TLC (simulation of DosSeq over the real content table)
+# ------------------------------------------------------------------------------------------------
+
+SIM_KEYS = ['k1', 'k2', 'k3', 'k4', 'k5', 'k7']
+SIM_SRC = ['k1', 'k3', 'k5', 'k9x']
+
+
+def _set(value):
+    return list(value['__set__']) if isinstance(value, dict) and '__set__' in value else list(value)
+
+
+def simulate_histories(num: int, depth: int, zlevel: int, target: int, seed: int):
+    """Ask TLC for ``num`` random behaviours of DosSeq (real sizes) and turn them into executable histories."""
+    import zlib  # pylint: disable=import-outside-toplevel
+
+    _table, full = contents()
+    keys = SIM_KEYS
+    sizes = {k: len(full[k]) for k in keys}
+    zlens = {k: common.zlen(full[k], zlevel) for k in keys}
+    autoz = {}
+    for k in keys:
+        comp = zlib.compressobj(level=1)
+        autoz[k] = bool(full[k]) and (len(comp.compress(full[k]) + comp.flush()) / len(full[k]) < 0.9)
+    src = [k for k in SIM_SRC if k in keys]
+    histories = []
+    with common.scratch('sim') as workdir:
+        with open(os.path.join(workdir, 'MCSim.tla'), 'w', encoding='utf8') as handle:
+            handle.write('---- MODULE MCSim ----\nEXTENDS DosSeq\n')
+            handle.write('MCKeys == {%s}\n' % ', '.join(f'"{k}"' for k in keys))
+            handle.write(_tla_fun('MCSize', sizes, str))
+            handle.write(_tla_fun('MCZLen', zlens, str))
+            handle.write(_tla_fun('MCAutoZ', autoz, lambda b: 'TRUE' if b else 'FALSE'))
+            handle.write('MCSrc == {%s}\n' % ', '.join(f'"{k}"' for k in src))
+            handle.write('Pairs == {<<a>> : a \\in MCKeys} \\cup {<<a, b>> : a, b \\in MCKeys} \\cup '
+                         '{<<a, b, a>> : a, b \\in MCKeys} \\cup {<<a, b, c, b>> : a, b, c \\in MCKeys}\n')
+            handle.write('Subs == {S \\in SUBSET MCKeys : Cardinality(S) <= 3}\n')
+            handle.write('SimNext == NextWith(Pairs, Subs, Subs, Subs \\cup {MCKeys}, MCSrc, {"NO", "YES", "KEEP", "AUTO"}, '
+                         '{"NO", "YES", "KEEP", "AUTO"})\n')
+            handle.write('SimSpec == Init /\\ [][SimNext]_vars\n====\n')
+        with open(os.path.join(workdir, 'MCSim.cfg'), 'w', encoding='utf8') as handle:
+            handle.write('SPECIFICATION SimSpec\nCONSTANTS\n  Keys <- MCKeys\n  Size <- MCSize\n  ZLen <- MCZLen\n'
+                         '  AutoZ <- MCAutoZ\n')
+            handle.write(f'  PackTarget = {target}\n  MaxPack = 30\n  Handles = {{"h1"}}\n  AppendIgnoresSeek = FALSE\n'
+                         '  ListUsesPinnedSnapshot = FALSE\nINVARIANT Refines\nINVARIANT Inv_IndexOK\n')
+        out = os.path.join(workdir, 'out')
+        os.makedirs(out)
+        res = tlc.run('MCSim', 'MCSim.cfg', workers=1, timeout=600, cwd=workdir,
+                      args=['-simulate', f'file={out}/tr,num={num}', '-depth', str(depth), '-seed', str(seed)],
+                      java_opts=[f'-DTLA-Library={common.SPEC}'])
+        for name in sorted(os.listdir(out)):
+            with open(os.path.join(out, name), encoding='utf8') as handle:
+                text = handle.read()
+            steps = []
+            for m in re.finditer(r'STATE_\d+ ==\s*\n(.*?)(?=\n\n|\Z)', text, re.S):
+                last = tlc.parse_state(m.group(1)).get('last')
+                if not last or last['op'] == 'init':
+                    continue
+                step = _step_from_last(last, src)
+                if step:
+                    steps.append(step)
+            if steps:
+                histories.append(steps)
+    if res.violated or res.error_lines:
+        tlc.machinery_failure(res, 'DosSeq simulation')
+    return histories, res
+
+
+def _step_from_last(last, src):
+    op = last['op']
+    keys = list(last['keys'])
+    if op == 'add':
+        return {'name': 'add', 'keys': keys, 'via': 'bytes'}
+    if op == 'addpack':
+        return {'name': 'addpack', 'keys': keys, 'z': last['z'], 'noholes': last['nh'], 'twice': last['tw'], 'via': 'streams'}
+    if op == 'pack':
+        return {'name': 'pack', 'mode': last['mode'], 'perpack': last['pp'], 'validate': True}
+    if op == 'clean':
+        return {'name': 'clean', 'vacuum': False}
+    if op == 'repack':
+        return {'name': 'repack', 'mode': last['mode']}
+    if op == 'delete':
+        return {'name': 'delete', 'keys': sorted(_set(last['S']))}
+    if op == 'has':
+        return {'name': 'has', 'keys': sorted(_set(last['S']))}
+    if op == 'list':
+        return {'name': 'list'}
+    if op == 'loosen':
+        return {'name': 'loosen', 'keys': keys}
+    if op == 'import':
+        return {'name': 'import', 'keys': sorted(_set(last['S'])), 'z': last['z'], 'budget': 100, 'iterable': 'list',
+                'callback': False, 'srckeys': src, 'samehash': last['sh']}
+    if op in ('reopen', 'initagain'):
+        return {'name': op}
+    return None
+
+
+def model_check(report: common.Report, depth_quick: int = 3, depth_thorough: int = 5, invariants=None, properties=None):
+    """Exhaustive TLC run of the design model (MC_Seq) with the given invariants/properties."""
+    depth = depth_thorough if report.tier == 'thorough' else depth_quick
+    with open(os.path.join(common.SPEC, 'MC_Seq.cfg'), encoding='utf8') as handle:
+        base = handle.read()
+    lines = []
+    for line in base.splitlines():
+        if line.startswith('INVARIANT') and invariants is not None and line.split()[1] not in invariants + ['TypeOK']:
+            continue
+        if line.startswith('PROPERTY') and properties is not None and line.split()[1] not in properties:
+            continue
+        if line.strip().startswith('MaxDepth'):
+            line = f'  MaxDepth = {depth}'
+        lines.append(line)
+    with common.scratch('mc') as workdir:
+        cfg = os.path.join(workdir, 'MC_Seq_run.cfg')
+        with open(cfg, 'w', encoding='utf8') as handle:
+            handle.write('\n'.join(lines) + '\n')
+        res = tlc.run('MC_Seq', cfg, workers=16, timeout=3000)
+    if not res.ok:
+        if res.violated:
+            print(f'DESIGN-COUNTEREXAMPLE: TLC finds {res.violated} violated in the design model MC_Seq (depth {depth}); '
+                  'this is a statement about the specification, replayed on the code by the trace checks')
+            report.note(f'design model violates {res.violated}')
+            print(res.output[-3000:])
+        tlc.machinery_failure(res, 'MC_Seq exhaustive check')
+    report.add('states', res.distinct)
+    report.add('transitions', res.generated)
+    report.set('design_model', {'config': 'MC_Seq', 'depth': depth, **res.summary()})
+    return res
